@@ -747,6 +747,45 @@ func (vc *VC) envAt(b *ssa.BasicBlock, heap *Heap, sub map[ssa.Value]Term) *cenv
 				}
 			}
 		}
+		// the nearest enclosing loop over a slice: outer_range_x (what it ranges over), outer_range_i (index of
+		// its last completed iteration; the current one is outer_range_i + 1)
+		best := -1
+		for h, set := range vc.loopBlks {
+			if h == b.Index || !set[b.Index] {
+				continue
+			}
+			if best < 0 || len(set) < len(vc.loopBlks[best]) {
+				best = h
+			}
+		}
+		if best >= 0 {
+			for _, hb := range vc.fn.Blocks {
+				if hb.Index != best {
+					continue
+				}
+				for _, ins := range hb.Instrs {
+					switch x := ins.(type) {
+					case *ssa.Phi:
+						if x.Comment == "rangeindex" {
+							if t, ok := vc.val[x]; ok {
+								ce.vars["outer_range_i"] = cval{t: t, typ: x.Type()}
+							}
+						}
+					case *ssa.BinOp:
+						if x.Op == token.LSS {
+							if c, ok := x.Y.(*ssa.Call); ok {
+								if bi, ok := c.Call.Value.(*ssa.Builtin); ok && bi.Name() == "len" {
+									a := c.Call.Args[0]
+									if t, ok := vc.val[a]; ok {
+										ce.vars["outer_range_x"] = cval{t: t, typ: a.Type()}
+									}
+								}
+							}
+						}
+					}
+				}
+			}
+		}
 	}
 	return ce
 }
